@@ -42,7 +42,8 @@ NumRel(o, a, b) == CASE o = "eq" -> REq(a, b) [] o = "ne" -> ~REq(a, b)
 
 \* the stated relation o between typed values a and b
 Rel(o, a, b) ==
-    IF IsNum(a) /\ IsNum(b) THEN B2K(NumRel(o, RatOf(a), RatOf(b)))
+    IF a.t \in {"wide", "none"} \/ b.t \in {"wide", "none"} THEN "U"     \* operand outside the exact domain / absent
+    ELSE IF IsNum(a) /\ IsNum(b) THEN B2K(NumRel(o, RatOf(a), RatOf(b)))
     ELSE IF a.t = "str" /\ b.t = "str" THEN (IF o = "eq" THEN B2K(a.s = b.s) ELSE IF o = "ne" THEN B2K(a.s # b.s) ELSE "U")
     ELSE IF o = "eq" THEN "F" ELSE IF o = "ne" THEN "T" ELSE "U"
 
